@@ -21,7 +21,7 @@ use aranya_crypto::{
     engine::WrappedKey,
     id::IdError,
     keystore::{
-        fs_keystore::Store, memstore::MemStore, Entry, Error as _, ErrorKind, KeyStore, Occupied,
+        fs_keystore::Store, memstore::MemStore, Entry, ErrorKind, KeyStore, Occupied,
         Vacant,
     },
     BaseId, Identified,
@@ -102,9 +102,6 @@ impl Op {
             ["plant", i, h] => Op::Plant(id(i)?, unhex(h)?),
             _ => return None,
         })
-    }
-    fn entry_level(&self) -> bool {
-        matches!(self, Op::Get | Op::Insert(_) | Op::Remove | Op::Drop)
     }
 }
 
@@ -280,7 +277,11 @@ impl Oracle {
                 self.cur = None;
                 "ok".into()
             }
-            (Op::SGet(i), None) => Self::key_or_err(self.value(*i)),
+            (Op::SGet(i), None) => match self.planted.get(i).and_then(|b| b.first()) {
+                // `Store::get` decodes an `Option<T>`: a planted CBOR null/undefined reads as None
+                Some(0xf6) | Some(0xf7) => "none".into(),
+                _ => Self::key_or_err(self.value(*i)),
+            },
             (Op::TryIns(i, k), None) => {
                 if self.present(*i) {
                     "exists".into()
@@ -325,6 +326,11 @@ fn err_str<E: aranya_crypto::keystore::Error>(e: &E) -> String {
     }
 }
 
+/// `vh::catch` for closures holding `&mut` borrows (the bound makes the closure `FnOnce`)
+fn catch_once<R>(f: impl FnOnce() -> R) -> Result<R, String> {
+    vh::catch(AssertUnwindSafe(f))
+}
+
 struct Out {
     /// (request, real answer)
     lines: Vec<(String, String)>,
@@ -352,7 +358,7 @@ fn run_on<T: Sut>(sut: &mut T, ops: &[Op]) -> Out {
     }
     macro_rules! guard {
         ($e:expr) => {
-            match vh::catch(AssertUnwindSafe(|| $e)) {
+            match catch_once(|| $e) {
                 Ok(v) => v,
                 Err(p) => {
                     out.panic = Some(p);
@@ -408,7 +414,13 @@ fn run_on<T: Sut>(sut: &mut T, ops: &[Op]) -> Out {
             }
             Op::Entry(i) => {
                 let store = sut.store();
-                let r = guard!(store.entry::<K>(id_of(*i)));
+                let r = match catch_once(move || store.entry::<K>(id_of(*i))) {
+                    Ok(v) => v,
+                    Err(p) => {
+                        out.panic = Some(p);
+                        return out;
+                    }
+                };
                 let mut entry = match r {
                     Err(e) => {
                         emit!(op, err_str(&e));
@@ -601,7 +613,8 @@ fn gen_garbage(rng: &mut Rng) -> Vec<u8> {
         1 => good[..rng.below(good.len() as u64) as usize].to_vec(),
         2 => {
             let mut v = good;
-            v.extend(rng.bytes(rng.range(1, 4) as usize));
+            let n = rng.range(1, 4) as usize;
+            v.extend(rng.bytes(n));
             v
         }
         3 => {
@@ -611,14 +624,14 @@ fn gen_garbage(rng: &mut Rng) -> Vec<u8> {
             v.extend_from_slice(&(k & (u64::MAX >> (64 - 8 * w as u32))).to_be_bytes()[8 - w..]);
             v
         }
-        4 => vec![*rng.pick(&[0x1cu8, 0x1f, 0x40, 0x60, 0x80, 0xa0, 0xf6, 0xff])],
+        4 => vec![*rng.pick(&[0x1cu8, 0x1f, 0x40, 0x60, 0x80, 0xa0, 0xf6, 0xf7, 0xff])],
         5 => good, // a well-formed file put there by somebody else
         _ => vec![0x1b, 0xff, 0xff],
     }
 }
 
 fn gen_script(rng: &mut Rng, big: bool) -> (Vec<Op>, bool) {
-    let len = rng.range(1, if big { 90 } else { 36 });
+    let len = rng.range(1, if big { 60 } else { 36 });
     let malformed = rng.chance(1, 6);
     let mut ops = vec![];
     // typestate of the generator: None | Some(occupied?)
@@ -766,14 +779,14 @@ fn main() {
     let big = args.thorough() || args.search;
     let mut shrunk = 0;
     // small-scope exhaustive part
-    let depth = if big { 5 } else { 4 };
+    let depth = if big { 4 } else { 3 };
     let mut scripts: Vec<Vec<Op>> = vec![];
     enumerate(depth, &mut |s| scripts.push(s.to_vec()));
     rec.count_n("exhaustive-scripts", scripts.len() as u64);
     rec.notes.push(format!("exhaustive: every well-typed script of {depth} ops over ids {{0,1}} ({} scripts)", scripts.len()));
     // seeded random part
     let mut rng = Rng::new(args.seed);
-    let cases = args.budget(1500, 25000);
+    let cases = args.budget(450, 3000);
     for _ in 0..cases {
         let (ops, malformed) = gen_script(&mut rng, big);
         rec.count(if malformed { "script:malformed-stream" } else { "script:well-typed" });
